@@ -7,8 +7,9 @@ ports = comports(): an abstract list of unknown length n of (device, description
   find_named_ebb / find_named    : None or ports[i].device for the LEAST i whose port matches the name (match_L below); legacy
                                    understands everything the EBB3 layer does, plus the SNR= tag
 All "least i" / "for all ports" statements are proved pointwise for an arbitrary index j*, with loop invariants over the
-cursor.  The own-name round trip (a name the library reports is found again) is checked per extraction path on a
-structured descriptor (see check_round_trip) and by a bounded native search.
+cursor.  The own-name round trip (a name the library reports is found again) is proved per port: the loop body of list_named_ebbs
+runs on one symbolic port and the reported text must satisfy the lookup criteria on that port (check_round_trip); a bounded native
+end-to-end search runs in addition.
 """
 import z3
 
@@ -300,20 +301,136 @@ def check_find_named(sess):
              match_spec('legacy', i, qn) == match_spec('ebb3', i, qn))
 
 
+
+# ------------------------------------------------------------------------------ own-name round trip
+def match_direct(layer, p0, p1, p2, q):
+    """match_spec on one port given by its three texts"""
+    lo = strops.PY_LOWER
+    ql = lo(q)
+    P0, P1, P2 = lo(p0), lo(p1), lo(p2)
+    n1 = z3.Length(P1)
+    tail = z3.SubString(P1, z3.If(n1 < 11, n1, z3.IntVal(11)), z3.If(n1 < 11, 0, n1 - 11))
+    crit = [z3.Contains(P2, z3.Concat(z3.StringVal('ser='), ql)),
+            z3.Contains(P1, z3.Concat(z3.StringVal('('), ql, z3.StringVal(')'))),
+            z3.PrefixOf(ql, tail), z3.PrefixOf(ql, P0)]
+    if layer == 'legacy':
+        crit.append(z3.Contains(P2, z3.Concat(z3.StringVal('snr='), ql)))
+    return z3.Or(*crit)
+
+
+def check_round_trip(sess):
+    """The name list_named_ebbs reports for a board is found again by the by-name lookup of the same layer.
+    Per port (the lookup's first-match contract, proved above, turns it into the list statement): the loop BODY of list_named_ebbs is
+    executed on one symbolic port; it must append exactly one text nm, and nm must satisfy the lookup criteria on that port.  Staged:
+      stage 1 (pure sequence theory, no lower-casing): the reported text sits in the descriptor where the lookup looks --
+              nm == description[11:], or hwid contains 'SER=' + nm, or (legacy) hwid contains 'SNR=' + nm, or nm == device;
+      stage 2: str.lower is a character-wise map, so prefix / containment / dropping 11 characters commute with it
+              (assumed of str.lower, instantiated at the terms of stage 1); the lowered criterion follows propositionally."""
+    import ast
+    from pyvc import front
+    from pyvc.engine import Frame
+    lo = strops.PY_LOWER
+    for layer, mod, lister in (('legacy', LEG, 'listEBBports'), ('ebb3', EB3, 'list_ebb_ports')):
+        fn = front.load(mod).func('list_named_ebbs')
+        loops = [n for n in ast.walk(fn) if isinstance(n, ast.For)]
+        ok_shape = (len(loops) == 1 and isinstance(loops[0].iter, ast.Name) and isinstance(loops[0].target, ast.Name))
+        src = None
+        out_name = None
+        if ok_shape:
+            for st in fn.body:
+                if isinstance(st, ast.Assign) and len(st.targets) == 1 and isinstance(st.targets[0], ast.Name):
+                    if st.targets[0].id == loops[0].iter.id and isinstance(st.value, ast.Call):
+                        src = ast.unparse(st.value.func)
+                    if isinstance(st.value, ast.List) and not st.value.elts:
+                        out_name = st.targets[0].id
+            rets = [n for n in ast.walk(fn) if isinstance(n, ast.Return) and isinstance(n.value, ast.Name)]
+            ok_shape = src == lister and out_name is not None and any(r.value.id == out_name for r in rets)
+        sess.add(f'list_named_ebbs[{layer}]/one-loop-over-{lister}()-filling-the-returned-list', f'{mod}.list_named_ebbs', 'ensures', [],
+                 z3.BoolVal(bool(ok_shape)), replay=replay19('roundtrip'))
+        if not ok_shape:
+            continue
+        ctx = sess.new_ctx()
+        ctx.note_function(mod, 'list_named_ebbs')
+        ctx.opts['prune_timeout_ms'] = 500
+        ex = Exec(ctx)
+        p = Path()
+        p0, p1, p2 = (z3.String(f'port_{nm}') for nm in ('device', 'description', 'hwid'))
+        port = VTuple([VStr([Atom(t, origin=('port', k))]) for k, t in enumerate((p0, p1, p2))])
+        # the port is one that the board listing returned
+        p.assume(z3.Or(z3.PrefixOf(z3.StringVal(NAME_PREFIX), p1), z3.PrefixOf(z3.StringVal(ID_PREFIX), p2)))
+        names = p.alloc(HList([]), 'list')
+        p.frames.append(Frame({loops[0].target.id: port, out_name: names}, mod, 'list_named_ebbs'))
+        tag = f'list_named_ebbs[{layer}](one-port)'
+        n = 0
+        for q, out in ex.exec_block(loops[0].body, p):
+            if out is not NORMAL:
+                oblige_at(ex, q, tag, 'ensures', False, 'loop-body-completes-normally')
+                continue
+            items = q.heap[names.ref].items
+            if len(items) != 1 or not isinstance(items[0], VStr):
+                oblige_at(ex, q, tag, 'ensures', False, 'exactly-one-name-is-reported-per-board')
+                continue
+            n += 1
+            nm = items[0].z()
+            n1 = z3.Length(p1)
+            tail_raw = z3.SubString(p1, z3.If(n1 < 11, n1, z3.IntVal(11)), z3.If(n1 < 11, 0, n1 - 11))
+            stage1 = [('name==description[11:]', z3.And(nm == tail_raw)),
+                      ('hwid-contains-SER=name', z3.Contains(p2, z3.Concat(z3.StringVal('SER='), nm))),
+                      ('name==device', nm == p0)]
+            if layer == 'legacy':
+                stage1.append(('hwid-contains-SNR=name', z3.Contains(p2, z3.Concat(z3.StringVal('SNR='), nm))))
+            # hints for the sequence solver (instances of the two stand-alone lemmas below): where 'SER=' / 'SNR=' is found it is followed
+            # by the text that comes next, so  tag + following-text  is contained in the descriptor
+            for lit in ('SER=', 'SNR='):
+                i0 = z3.IndexOf(p2, z3.StringVal(lit), 0)
+                q.pc.append(z3.Implies(z3.Contains(p2, z3.StringVal(lit)), z3.And(i0 >= 0, z3.SubString(p2, i0, 4) == z3.StringVal(lit))))
+                q.pc.append(z3.Implies(z3.And(i0 >= 0, i0 + 4 + z3.Length(nm) <= z3.Length(p2)),
+                                       z3.Contains(p2, z3.Concat(z3.SubString(p2, i0, 4), z3.SubString(p2, i0 + 4, z3.Length(nm))))))
+            oblige_at(ex, q, tag, 'ensures', z3.Or(*[g for _, g in stage1]), 'stage1:the-reported-name-sits-where-the-lookup-looks')
+            del q.pc[-4:]
+            # stage 2: instances of "str.lower is a character-wise map"
+            P0, P1, P2, ql = lo(p0), lo(p1), lo(p2), lo(nm)
+            m1 = z3.Length(P1)
+            tail_low = z3.SubString(P1, z3.If(m1 < 11, m1, z3.IntVal(11)), z3.If(m1 < 11, 0, m1 - 11))
+            ax = [z3.Implies(nm == tail_raw, ql == tail_low),                                   # lower(s[11:]) == lower(s)[11:]
+                  z3.Implies(z3.Contains(p2, z3.Concat(z3.StringVal('SER='), nm)), z3.Contains(P2, z3.Concat(z3.StringVal('ser='), ql))),
+                  z3.Implies(z3.Contains(p2, z3.Concat(z3.StringVal('SNR='), nm)), z3.Contains(P2, z3.Concat(z3.StringVal('snr='), ql))),
+                  z3.Implies(nm == p0, ql == P0)]
+            ob = ex.oblige(q, 'ensures', match_direct(layer, p0, p1, p2, nm), 'stage2:the-lookup-criteria-accept-the-reported-name',
+                           extra_hyps=[z3.Or(*[g for _, g in stage1])] + ax)
+            ob.func = tag
+            ob.hyps = [z3.Or(*[g for _, g in stage1])] + ax          # propositional: nothing else is needed
+        if n == 0:
+            raise EngineError(f'list_named_ebbs[{layer}]: no body path')
+        sess.functions.update(ctx.functions)
+        sx = z3.String('s')
+        ax_, mx_ = z3.Ints('a m')
+        for lit in ('SER=', 'SNR='):
+            ix = z3.IndexOf(sx, z3.StringVal(lit), 0)
+            sess.add(f'lemma/find-returns-an-occurrence[{lit}]', 'spec', 'lemma', [z3.Contains(sx, z3.StringVal(lit))],
+                     z3.And(ix >= 0, z3.SubString(sx, ix, 4) == z3.StringVal(lit)))
+        sess.add('lemma/adjacent-substrings-are-contained-together', 'spec', 'lemma', [ax_ >= 0, mx_ >= 0, ax_ + 4 + mx_ <= z3.Length(sx)],
+                 z3.Contains(sx, z3.Concat(z3.SubString(sx, ax_, 4), z3.SubString(sx, ax_ + 4, mx_))))
+        ctx.assume_note('str.lower is a character-wise map: lower(s[11:]) == lower(s)[11:], and s contains LIT+t implies lower(s) contains '
+                        'lower(LIT)+lower(t) (instances at the reported name; lower("SER=") == "ser=", lower("SNR=") == "snr=")')
+        sess.absorb(ctx, replay=replay19('roundtrip'))
+
+
 def build(sess):
-    sess.level = 'other'
+    sess.level = 'proof'
     sess.trust(
         'pyvc symbolic executor and its model of the Python subset; abstract indexed sequence for the port list',
         'comports() returns a finite list of 3-tuples of texts, or raises TypeError (handled by the code)',
-        'str.lower() on symbolic text is an uninterpreted function that distributes over concatenation (ASCII assumption for port '
-        'descriptors and names)',
-        'z3 sequence theory / cvc5 strings for startswith / in / slicing',
+        'str.lower() on symbolic text is an uninterpreted function that is a character-wise map: it distributes over concatenation, and '
+        'prefix / containment / dropping a fixed number of leading characters commute with it (ASCII assumption for port descriptors and names)',
+        'z3 sequence theory / cvc5 strings for startswith / in / find / slicing',
     )
     check_first(sess)
     check_list(sess)
     check_find_named(sess)
+    check_round_trip(sess)
     rt = native('n_c19', 'round_trip', {'seed': sess.seed, 'n': 400 if sess.tier == 'quick' else 6000})
-    sess.bounded.append({'function': 'list_named_ebbs -> find_named_ebb / find_named (own-name round trip)',
+    sess.bounded.append({'function': 'list_named_ebbs -> find_named_ebb / find_named end to end (supplementary to the per-port proof)',
                          'bound': rt.get('bound'), 'evaluations': rt.get('tried', 0), 'distinct_nontrivial': rt.get('distinct', 0),
                          'rule': 'descriptor strings from Windows / macOS / Linux templates x names over a small alphabet x case variants; '
                                  'non-trivial = the board is found through a name extracted from its description or serial tag'})
@@ -322,8 +439,11 @@ def build(sess):
                                        'observed': rt.get('observed'), 'expected': rt.get('expected'), 'summary': f"{rt.get('input')} -> {rt.get('observed')} expected {rt.get('expected')}"})
     sess.explanation = ('PROVED (obligations listed): first-board discovery and the board listing in both layers, and for the by-name '
                         'lookups: the result is a port of the list, it matches the name under the stated criteria, it is the FIRST '
-                        'matching port, None iff no port matches, legacy = EBB3 + SNR tag. BOUNDED (not proved): that the name '
-                        'list_named_ebbs reports for a board is found again (own-name round trip), checked natively on templated descriptors.')
+                        'matching port, None iff no port matches, legacy = EBB3 + SNR tag. Own-name round trip: the loop body of '
+                        'list_named_ebbs is executed on one symbolic port of the board listing; on every path exactly one name is reported and it '
+                        'satisfies the lookup criteria on that port (stage 1 in pure sequence theory, stage 2 through the character-wise-map '
+                        'property of str.lower); with the first-match contract of the lookup this is the list statement. A bounded native '
+                        'end-to-end run is reported in addition (labelled, not counted).')
 
 
 def fallback(sess):
